@@ -18,6 +18,12 @@ max(th, t_send) + max(keep-alive, send interval) + tau + d, the receiver's incom
 [(1, payload)]; at every event of an admissible schedule it is [] or that; the sender's RetrySender is done
 only after the delivery.
 
+(d) guaranteed sends issued from INSIDE callbacks (callback_worlds): the client's connect callback (the message shares its
+datagram with the CHALLENGE_RESP), the handler's connect / handle_message / update / disconnect events on the server; real
+UdpClients around the real server loop behind every front door (harness/srvx.py), loss and duplication in both directions, then
+healed; delivery is judged at EventHandler.handle_message and UdpClient.getMessages (not at incoming_messages); replayed on
+Server.v (unit srv_run).
+
 Oracle (implementation only), evaluated after the healed phase while the connection is open:
   * every guaranteed payload accepted by send was handed to the peer application (at least once);
   * nothing is left in the sender's outgoing queue and no guaranteed message is still pending
@@ -31,6 +37,7 @@ RULE = ("boundary sweep: every length around 0 / MAX_PAYLOAD_SIZE / k*MAX_FRAGME
 ASSUMPTIONS = ["fairness: after the faulty phase the network delivers every datagram and both sides keep ticking (healed phase)",
                "clock values are multiples of 1/1024 s"]
 TRUSTED = ["harness/connsim.py + netsim.py (virtual clock, datagram translation)",
+           "harness/srvsim.py + srvx.py (stepped real server loop behind every front door; ScriptedSocket stands for the OS socket under _UdpServer.run)",
            "harness/idlesim.py + livesim.py (joint timed schedules; the server sweep applied to one connection)"]
 
 T = S.TICKS
@@ -227,6 +234,199 @@ def directed_d17(run, cases, impl, mod):
             net.close()
 
 
+
+# ------------------------------------------------------------------ guaranteed sends issued from inside callbacks
+
+CB_RULE = ("server-loop worlds (harness/srvx.py, every front door): UdpClient.send_guaranteed issued from INSIDE the client's connect "
+           "callback (co-packed with the CHALLENGE_RESP, or following it, or fragmented) and later from the application; "
+           "ServerClientConnection.send_guaranteed issued from inside the handler's connect / handle_message / update / disconnect events; "
+           "payload lengths 0, 1, small, MAX_PAYLOAD_SIZE-1..+1, fragmented; loss / duplication in both directions, then healed; "
+           "delivery judged at EventHandler.handle_message and at UdpClient.getMessages; non-trivial = a world in which a guaranteed "
+           "message sent from the connect callback shared its datagram with the CHALLENGE_RESP")
+
+
+def callback_world(run, rng, idx, front, loss, p_raise):
+    from harness import srvsim as V, srvx as X
+    from mpgameserver.connection import Packet
+    mtu = rng.choice([1500, 1500, 576, 1096])
+    env = S.env_for_mtu(mtu)
+    S.restore_mtu()
+    mp = env[0]
+    sizes = [0, 1, 7, 100, 100, min(600, mp - 2), mp - 1, mp, mp + 1, 3000]
+    quiet = [False]     # the application stops talking some time after the network healed, so that everything can settle
+    srv_sent = {}       # (addr, payload) -> event kind it was sent from
+    cli_sent = {}       # (addr, payload) -> where it was sent from
+    serial = [0]
+    zero_used = set()
+
+    def payload(tag, who, n):
+        serial[0] += 1
+        head = b"%s-%d-%d-" % (tag, idx, serial[0])
+        if n == 0 and (who, tag) not in zero_used:
+            zero_used.add((who, tag))
+            return b""
+        return head + bytes(rng.randrange(256) for _ in range(max(0, n - len(head))))
+
+    def policy(sim, n, ev):
+        acts = []
+        kind = ev[0]
+        if quiet[0]:
+            return acts, False
+        if kind in (3, 4, 5):
+            me = next((c for c in sim.ctxt.connections.values() if sim.cid(c) == ev[1]), None)
+            others = [c for c in sim.ctxt.connections.values() if c is not me and c.status.value == 2]
+            if kind == 3 and me is not None:
+                for _ in range(rng.choice([1, 1, 2])):
+                    p = payload(b"s-connect", me.addr, rng.choice(sizes))
+                    if (me.addr, p) not in srv_sent:
+                        srv_sent[(me.addr, p)] = "connect"
+                        acts.append([1, V.av(me.addr), p, -1, -1])
+            elif kind == 4 and me is not None and rng.random() < 0.4:
+                p = payload(b"s-message", me.addr, rng.choice(sizes))
+                if (me.addr, p) not in srv_sent:
+                    srv_sent[(me.addr, p)] = "handle_message"
+                    acts.append([1, V.av(me.addr), p, -1, -1])
+            elif kind == 5 and others:
+                o = rng.choice(others)
+                p = payload(b"s-disconnect", o.addr, rng.choice(sizes))
+                if (o.addr, p) not in srv_sent:
+                    srv_sent[(o.addr, p)] = "disconnect"
+                    acts.append([1, V.av(o.addr), p, -1, -1])
+        elif kind == 2 and rng.random() < 0.05:
+            for c in sim.ctxt.connections.values():
+                if c.status.value == 2:
+                    p = payload(b"s-update", c.addr, rng.choice(sizes[1:]))
+                    srv_sent[(c.addr, p)] = "update"
+                    acts.append([1, V.av(c.addr), p, -1, -1])
+        return acts, kind in (3, 4, 5) and rng.random() < p_raise
+    w = X.WorldX(run, rng, cfg=(5 * T, 2 * T, 1536, T // 4), policy=policy, full=True, front=front, api_sends=True, mtu=mtu)
+    sim = w.sim
+    faulty = [True]
+
+    def lossy(addr, d):
+        if not faulty[0]:
+            return [d]
+        r = rng.random()
+        return [] if r < loss else ([d, d] if r < loss + 0.1 else [d])
+    w.up = lossy
+    w.down = lossy
+    copacked = [0]
+
+    def on_connect(hc, ok):
+        if not ok:
+            return
+        conn = hc.client.conn
+        for n in rng.choice([[7], [0, 100], [100, mp + 1], [1, 1, 1], [3000], [mp], [mp // 3, mp // 3, mp // 3]]):
+            p = payload(b"c-connect", hc.addr, n)
+            if (hc.addr, p) in cli_sent:
+                continue
+            q0 = len(conn.outgoing_messages)
+            hc.client.send_guaranteed(p)
+            if len(conn.outgoing_messages) > q0:
+                cli_sent[(hc.addr, p)] = "connect-callback"
+    addrs = [("10.5.%d.%d" % (idx % 200, i + 1), 5000 + i) for i in range(rng.choice([1, 2, 3]))]
+    try:
+        recs = []
+        for st in range(150):
+            if st % 4 == 0 and len(recs) < len(addrs):
+                recs.append(w.add_client(addrs[len(recs)], on_connect=on_connect))
+                recs[-1]["hc"].client.setMessageTimeout(0.25)
+            if st == 40:
+                faulty[0] = False
+            if st == 60:
+                quiet[0] = True
+            for rec in recs:
+                hc = rec["hc"]
+                if hc.status() == 2 and st < 40 and rng.random() < 0.3:
+                    p = payload(b"c-later", hc.addr, rng.choice(sizes))
+                    if (hc.addr, p) not in cli_sent:
+                        q0 = len(hc.client.conn.outgoing_messages)
+                        hc.client.send_guaranteed(p)
+                        if len(hc.client.conn.outgoing_messages) > q0:
+                            cli_sent[(hc.addr, p)] = "application"
+                if st == 30 and len(recs) > 1 and rec is recs[-1] and rng.random() < 0.5:
+                    hc.client.disconnect()       # (its peers may then be written to from the disconnect event)
+            n_hist = len(w.sent_hist)
+            if not w.step(600):        # 600 ticks = 39 ms; message time-outs 0.25 s on both sides: a round trip is well below it
+                break
+            for a, d in w.sent_hist[n_hist:]:
+                h, b = S.abstract(d, sim.keys, [w.by_addr[a]["hc"].key_id()])
+                if b[0] == 0:
+                    types = [m[1] for m in (S.decode_msgs_py(h[4], h[6], b[3]) or [])]
+                    if 3 in types and (6 in types or 7 in types):
+                        copacked[0] += 1
+        if sim.internal:
+            raise RuntimeError("harness-internal problem: %s" % sim.internal[:3])
+        # ---- oracle: judged at the application on both sides, for connections that stayed open
+        handed = {}
+        closed = set()
+        cid_addr = {}
+        for o in sim.log:
+            if o[0] == 0 and o[1][0] == 3:
+                cid_addr[o[1][1]] = V.va(o[1][2])
+            elif o[0] == 0 and o[1][0] == 4:
+                handed[(cid_addr.get(o[1][1]), bytes(o[1][3]))] = handed.get((cid_addr.get(o[1][1]), bytes(o[1][3])), 0) + 1
+            elif o[0] == 0 and o[1][0] == 5:
+                closed.add(cid_addr.get(o[1][1]))
+        base = {"scenario": "guaranteed sends from callbacks", "world": idx, "front": front, "mtu": mtu, "loss": loss, "p_raise": p_raise}
+        n_ok = 0
+        for rec in recs:
+            a, hc = rec["addr"], rec["hc"]
+            sc = sim.ctxt.connections.get(a)
+            open_ = (hc.status() == 2 and sc is not None and sc.status.value == 2 and a not in closed and not sim.died)
+            run.count("callback_world_connections_open_at_end" if open_ else "callback_world_connections_closed")
+            if not open_:
+                continue
+            for (aa, p), where in cli_sent.items():
+                if aa == a and handed.get((a, p), 0) == 0:
+                    run.oracle_violation("guaranteed-message-never-delivered",
+                                         dict(base, who="client", sent_from=where, len=len(p), payload=p[:32], observed_at="EventHandler.handle_message",
+                                              client_outgoing=len(hc.client.conn.outgoing_messages), client_pending_acks=len(hc.client.conn.pending_acks),
+                                              server_incoming_queue=len(sc.incoming_messages)), "UdpServerThread.run hand-over")
+                elif aa == a:
+                    n_ok += 1
+            got = set(hc.got)
+            for (aa, p), where in srv_sent.items():
+                if aa == a and p not in got:
+                    run.oracle_violation("guaranteed-message-never-delivered",
+                                         dict(base, who="server", sent_from="handler." + where, len=len(p), payload=p[:32], observed_at="UdpClient.getMessages",
+                                              server_outgoing=len(sc.outgoing_messages), server_pending_acks=len(sc.pending_acks)), "guaranteed delivery")
+                elif aa == a:
+                    n_ok += 1
+            for who, conn in (("client", hc.client.conn), ("server", sc)):
+                if conn.outgoing_messages:
+                    run.oracle_violation("message-stuck-in-outgoing-queue",
+                                         dict(base, who=who, stuck_lengths=[len(m.payload) for m in conn.outgoing_messages][:8]), "_build_packet_impl")
+        w.finish()
+        diff = sim.check_model()
+        run.count("callback_worlds")
+        run.count("callback_world_guaranteed_delivered", n_ok)
+        run.count("callback_world_sent_from_connect_callback", sum(1 for v in cli_sent.values() if v == "connect-callback"))
+        run.count("callback_world_copacked_with_challenge", copacked[0])
+        for k in set(srv_sent.values()):
+            run.count("callback_world_sent_from_handler_" + k, sum(1 for v in srv_sent.values() if v == k))
+        run.evaluations += len(cli_sent) + len(srv_sent)
+        if copacked[0] and n_ok:
+            run.nt(("callback-world", idx, front, n_ok))
+        return {"world": idx, "front": front, "loss": loss, "first_difference": lib.jsonable(diff)}, diff
+    finally:
+        w.close()
+
+
+def callback_worlds(run, rng, n):
+    from harness import srvx as X
+    cases, impl, mod = [], [], []
+    for i in range(n):
+        with X.logging_enabled():
+            c, diff = callback_world(run, rng, i, X.FRONTS[i % len(X.FRONTS)], [0.0, 0.2, 0.0, 0.4][(i // 2) % 4], [0.0, 0.3][(i // 3) % 2])
+        cases.append(c)
+        impl.append("agree")
+        mod.append("agree" if not diff else "differ")
+    run.compare("srv_run", cases, impl, mod)
+    if not run.dist.get("callback_world_copacked_with_challenge"):
+        raise RuntimeError("no guaranteed message shared a datagram with the challenge response: the harness is not exercising the surface")
+
+
 def run(run):
     rng = run.rng
     th = run.thorough()
@@ -280,5 +480,7 @@ def run(run):
     directed_d17(run, cases, impl, mod)
     run.compare("conn_run", cases, impl, mod)
     live_sessions(run, rng, th)
+    callback_worlds(run, rng, 200 if th else 16)
+    run.rules.append(CB_RULE)
     run.rules.append(RULE)
     run.rules.append(LIVE_RULE)
